@@ -667,9 +667,10 @@ def sync_jobs(
         exclude = [exclude]
     else:
         exclude = list(exclude)  # the caller's list must not be modified
-    exclude.append(src.FN_STATE_POINT)
+    # The internal files are excluded by their exact names only.
+    exclude.append(re.escape(src.FN_STATE_POINT) + "$")
     if doc_sync != DocSync.COPY:
-        exclude.append(src.FN_DOCUMENT)
+        exclude.append(re.escape(src.FN_DOCUMENT) + "$")
 
     if type(dry_run) is _FileModifyProxy:
         proxy = dry_run
